@@ -108,7 +108,7 @@ def main():
         'version': 1,
         'setup_cmd': 'sh scripts/setup.sh',
         'hooks': {'guard': 'verif', 'enable': 'go build -tags verif compiles /repo/stack/verif_hooks.go (read-only accessors: VerifStepper over scanningState.scan, VerifLess/Equal/Similar/Merge, VerifReadLines); the harness falls back to a public-API-only build when the file no longer compiles and reports the hooked ops (step, sigops, rlines) as unchecked',
-                  'baseline_off_cmd': 'cd /repo && GOFLAGS=-mod=mod go test -vet=off -count=1 ./...', 'source_commits': ['dee5a37'], 'add_only': True},
+                  'baseline_off_cmd': 'cd /repo && GOFLAGS=-mod=mod go test -vet=off -count=1 ./...', 'source_commits': ['dee5a37', '27ca8ce'], 'add_only': True},
         'engines': [
             {'name': 'coq-model', 'path': 'coq/', 'serves_properties': claimed, 'kind_free_text': 'hand-written Gallina model + theorems (Coq 8.16.1), property files under coq/theories/Properties'},
             {'name': 'correspondence', 'path': 'scripts/check.py', 'serves_properties': claimed,
